@@ -5,7 +5,8 @@ import re, posixpath
 import core
 from core import World, parse_fs, Line, hx
 from gen import Gen, mode_line, cfg_line
-from suites import parse_snap, esc, exp_silent
+from suites import parse_snap, parse_snap_scan, esc, exp_silent
+import suites
 
 
 def frame(tid, body):
@@ -138,12 +139,32 @@ def make_spec(g, allow=()):
             running = [(o, oc) for o, oc in tests if o != n and o not in skipped]
             if all(any(c2 == c for _, oc in running for c2, _ in oc) for c in set(c for c, _ in calls)):
                 skipped.append(n)
-    return dict(cfgs=cfgs, nfiles=nfiles, tests=tests, stale=stale, skipped=skipped,
+    # the prepared files as a checkout with core.autocrlf leaves them (CR LF / mixed line endings), or
+    # hand-edited: extra blank lines, notes and merge-conflict markers between the entries.  The
+    # recognised entries then take FEWER bytes than the file does
+    k = r.random()
+    crlf = r.choice(suites.CRLF_MODES) if k < 0.15 else None
+    gaps = 0.15 <= k < 0.27
+    return dict(cfgs=cfgs, nfiles=nfiles, tests=tests, stale=stale, skipped=skipped, crlf=crlf, gaps=gaps,
                 count=r.choice([1, 1, 2, 3]), shuffle=r.randrange(1 << 30),
                 stale_files=r.sample(['old_test.snap', 'x.snapshot', 'gone_1.snap', 'a.snap.json'], r.choice([0, 0, 1, 2])),
                 decoys=r.random() < 0.6,
                 mode=r.choice([(False, ''), (False, 'clean'), (False, 'true'), (True, 'clean'), (False, 'other')]),
                 sort=r.choice(['-', '0', '1', '1']), flags=set())
+
+
+# lines found between the entries of hand-edited files; none starts with `[` or equals `---`
+GAP_LINES = [b'', b'', b'   ', b'# hand-edited note', b'free text', b'<<<<<<< HEAD', b'=======', b'>>>>>>> feature/branch', b'\t', b'--', b'TestA - 1]']
+
+
+def parser_of(w):
+    """how the oracles read a multi-entry file of this world: byte-exact framing for files the
+    library wrote itself; as the line scanner sees them (CR dropped, free lines between entries
+    skipped) for files with other line endings / hand-edited spacing"""
+    spec = getattr(w, 'spec', None) or {}
+    if spec.get('crlf') or spec.get('gaps'):
+        return lambda c: parse_snap_scan(c, loose=bool(spec.get('gaps')))
+    return parse_snap
 
 
 def suffix_of(cfgline):
@@ -200,9 +221,21 @@ def render(tag, spec, oracles):
     for c in spec['cfgs']:
         w.add(c)
     per = layout(spec)
+    if spec.get('crlf'):
+        w.flags.add('crlf-file')
+    if spec.get('gaps'):
+        w.flags.add('gaps-file')
     for cfgno, entries in per.items():
         if entries:
-            w.add('fsput %s %s' % (hx(suffix_of(spec['cfgs'][cfgno - 1])), hx(b''.join(frame(i, b) for i, b, _ in entries))))
+            content = b''.join(frame(i, b) for i, b, _ in entries)
+            if spec.get('gaps'):
+                import random
+                rg = random.Random(spec['shuffle'] * 7 + cfgno)
+                content = b''.join(b''.join(l + b'\n' for l in rg.sample(GAP_LINES, rg.randint(0, 3))) + frame(i, b) for i, b, _ in entries)
+                content += b''.join(l + b'\n' for l in rg.sample(GAP_LINES, rg.randint(0, 2)))
+            w.add('fsput %s %s' % (hx(suffix_of(spec['cfgs'][cfgno - 1])), hx(content)))
+            if spec.get('crlf'):
+                w.add('fscrlf %s %s' % (spec['crlf'], hx(suffix_of(spec['cfgs'][cfgno - 1]))))
     alldirs = sorted(set(suffix_of(c).rsplit('/', 1)[0] for cfgno, c in enumerate(spec['cfgs'], 1) if per[cfgno]))
     # directories Clean visits: those of files some call addresses
     dirs = sorted(set(suffix_of(c).rsplit('/', 1)[0] for cfgno, c in enumerate(spec['cfgs'], 1)
@@ -278,7 +311,7 @@ def o_matched_kept(w):
         p = file_of(w, cfgno, before)
         if p not in after:
             return 'addressed file %r was deleted' % p
-        ea = parse_snap(after[p])
+        ea = parser_of(w)(after[p])
         if ea is None:
             return 'addressed file %r is not well formed after Clean' % p
         da = dict(ea)
@@ -304,7 +337,7 @@ def o_stale_reported(w):
         p = file_of(w, cfgno, before)
         if p is None or not any(live for _, _, live in entries):
             continue        # a file no call addressed is a stale *file* (checked below)
-        ea = parse_snap(after.get(p, b''))
+        ea = parser_of(w)(after.get(p, b''))
         ids_after = [e[0] for e in (ea or [])]
         for tid, body, live in entries:
             if not live:
@@ -348,7 +381,7 @@ def o_rewrite_preserves(w):
         p = file_of(w, cfgno, before)
         if p is None or p not in after or not any(live for _, _, live in entries):
             continue
-        eb, ea = parse_snap(before[p]), parse_snap(after[p])
+        eb, ea = parser_of(w)(before[p]), parser_of(w)(after[p])
         if ea is None:
             return 'file %r not well formed after Clean' % p
         want = [e for e in eb if not (dele and e[0] in [t for t, _, live in entries if not live])]
@@ -373,7 +406,7 @@ def o_rewrite_preserves(w):
         p = file_of(w, cfgno, before)
         if p is None or p not in after or not any(live for _, _, live in entries):
             continue
-        eb = parse_snap(before[p])
+        eb = parser_of(w)(before[p])
         ids = [e[0] for e in eb]
         has_stale = any(not live for _, _, live in entries)
         import functools
@@ -381,17 +414,21 @@ def o_rewrite_preserves(w):
         if not (dele and has_stale) and (not srt or already) and nat_total(ids) and p in l1.writes:
             return 'file %r needed neither pruning nor sorting but was written' % p
     l2 = Line(w.impl[w.meta['clean2']])
-    all_total = all(nat_total([e[0] for e in (parse_snap(before[file_of(w, c, before)]) or [])])
+    all_total = all(nat_total([e[0] for e in (parser_of(w)(before[file_of(w, c, before)]) or [])])
                     for c, es in w.meta['per'].items() if file_of(w, c, before) and any(l for _, _, l in es))
     if (all_total or not srt) and (l2.writes or l2.removed or after2 != after):
         return 'a second Clean changed something: w=%r d=%r' % (l2.writes, l2.removed)
     return None
 
 
-def big_clean_spec(g, mode=(False, ''), sort='-'):
+def big_clean_spec(g, mode=(False, ''), sort='-', lines=1):
     """a used snapshot file of about 12 KiB: 80 entries of one test, an obsolete entry near the top,
-    another one in the middle (ids must survive the scanner's buffer refills)"""
+    another one in the middle (ids must survive the scanner's buffer refills).  lines > 1: bodies of
+    that many lines (about 25 KiB for 12), so that some BODY is being captured at every refill of
+    the scanner's 4 KiB window"""
     calls = [(1, b'value %03d %s' % (k, b'v' * (90 + k % 11))) for k in range(80)]
+    if lines > 1:
+        calls = [(1, b'\n'.join(b'entry %03d line %02d %s' % (k, j, b'w' * ((k * 5 + j) % 29)) for j in range(lines))) for k in range(60)]
     stale = [(1, b'TestGoneEarly/sub - 1', b'old early'), (1, b'TestGoneMiddle - 3', b'old middle\nsecond line')]
     return dict(cfgs=[cfg_line(1, 'snaps')], nfiles=1, tests=[(b'TestBigClean', calls)], stale=stale, count=1, shuffle=4,
                 stale_files=[], decoys=False, mode=mode, sort=sort, flags=set())
@@ -410,6 +447,21 @@ def tie_specs():
             for sh in (1, 2, 3, 7, 8):
                 out.append(dict(cfgs=[cfg_line(1, 'snaps')], nfiles=1, tests=tests, stale=[(1, b'TestGone - 1', b'stale')] if sh % 2 else [],
                                 count=1, shuffle=sh, stale_files=[], decoys=False, mode=mode, sort=srt, flags=set()))
+    return out
+
+
+def eol_specs():
+    """files whose recognised entries take fewer bytes than the file: CR LF / mixed line endings,
+    or extra lines between the entries; unsorted (shuffle seeds chosen so), with and without a
+    stale entry, in every mode x sort combination that can rewrite or must not"""
+    out = []
+    tests = [(b'TestAlpha', [(1, b'alpha')]), (b'TestBeta', [(1, b'beta one'), (1, b'beta\ntwo\n'), (1, b'---\nthree')]),
+             (b'TestGamma/sub', [(1, b'gamma %d' % k) for k in range(1, 4)])]
+    for crlf, gaps in (('all', False), ('odd', False), ('even', False), (None, True), ('all', True)):
+        for mode, srt in (((False, ''), '1'), ((False, 'clean'), '1'), ((False, 'clean'), '-'), ((False, 'other'), '1'), ((True, 'clean'), '1'), ((False, ''), '-')):
+            for sh in (1, 2, 3):
+                out.append(dict(cfgs=[cfg_line(1, 'snaps')], nfiles=1, tests=tests, stale=[(1, b'TestGone - 1', b'stale\nbody')] if sh == 2 else [],
+                                count=1, shuffle=sh, stale_files=[], decoys=False, mode=mode, sort=srt, flags=set(), crlf=crlf, gaps=gaps))
     return out
 
 
